@@ -1,6 +1,10 @@
 """Deductive contracts on small functions that carry parts of C10, C11, C13, C17, C18."""
 from pyvc.api import clause, contract, implies, old, opaque
+import griffe  # noqa: F401
+import safeds_stubgen.api_analyzer._types as sds_types  # noqa: F401
+from safeds_stubgen.docstring_parsing._docstring_parser import DocstringParser  # noqa: F401
 from specs.helper import CONV, ESC
+from safeds_stubgen._helpers import is_internal  # noqa: F401
 
 _GS = "safeds_stubgen.stubs_generator._generate_stubs:"
 _V = "safeds_stubgen.api_analyzer._ast_visitor:MyPyAstVisitor."
@@ -154,6 +158,10 @@ def REEXP(visitor, name, qname, parent):
 
 @contract(_V + "_check_publicity_in_reexports", props=["C04"], verify=False)
 class check_publicity_in_reexports:
+    """Assumed (names the verdict of the re-export table lookup). A deductive proof that a specific re-export is
+    matched by module-qualified name was attempted (nested any() over the table against the nested loops with
+    early returns): 26 of 32 obligations in 10 minutes, the rest undecided — left to the bounded publicity
+    oracle of get_api."""
     modifies = []
 
     def ensures_table(self, name, qname, parent, result):
@@ -192,3 +200,152 @@ class is_public:
         if isinstance(parent, Class) and (name == "__init__" or not name.startswith("_")):
             return result == parent.is_public
         return result == all(not seg.startswith("_") for seg in qname.split(".")[:-1])
+
+
+# ---------------------------------------------------------------------------------------------- docstring annotations (C01, C14)
+def DOC_TYPE_ORACLE(text):
+    """Expected API type (as dictionary) of a docstring type text, for the plain constructs."""
+    any_ = {"kind": "NamedType", "name": "Any", "qname": "typing.Any"}
+    base = {"int": {"kind": "NamedType", "name": "int", "qname": "builtins.int"},
+            "str": {"kind": "NamedType", "name": "str", "qname": "builtins.str"},
+            "bool": {"kind": "NamedType", "name": "bool", "qname": "builtins.bool"},
+            "float": {"kind": "NamedType", "name": "float", "qname": "builtins.float"}}
+    t = text.strip()
+    if t in base:
+        return base[t]
+    for head, kind in (("list[", "ListType"), ("set[", "SetType"), ("tuple[", "TupleType")):
+        if t.startswith(head) and t.endswith("]"):
+            inner = [x.strip() for x in t[len(head):-1].split(",")]
+            if all(x in base for x in inner):
+                return {"kind": kind, "types": [base[x] for x in inner]}
+    for head in ("dict[",):     # an unimported `Mapping` stays an unresolved name: outside the oracle
+        if t.startswith(head) and t.endswith("]"):
+            inner = [x.strip() for x in t[len(head):-1].split(",")]
+            if all(x in base for x in inner) and 1 <= len(inner) <= 2:
+                return {"kind": "DictType", "key_type": base[inner[0]], "value_type": base[inner[1]] if len(inner) > 1 else any_}
+    return None
+
+
+@contract(_D + "_remove_default_from_griffe_annotation", props=["C01"])
+class remove_default:
+    params = {"self": "DocstringParser", "annotation": "str"}
+    raises = ()
+
+    def ensures_text(self, annotation, result):
+        return isinstance(result, str)
+
+
+@contract(_D + "_griffe_annotation_to_api_type", props=["C01", "C14"])
+class griffe_annotation:
+    """Never raises (every index is guarded by a length test; every attribute read is on a class that has it)
+    and yields an API type or None — for every griffe expression tree, by induction on the recursion (the
+    recursive calls are used through this contract)."""
+    params = {"self": "DocstringParser", "annotation": "griffe.Expr | str", "docstring": "griffe.Docstring"}
+    raises = ()
+    # `while isinstance(left_bin, ExprBinOp)`: the cursor stays an expression or a string, `types` stays a list
+    loop_invariants = {1: {"shapes": {"left_bin": "griffe.Expr | str", "types": "list"}}}
+
+    def ensures_typed(self, annotation, docstring, result):
+        return result is None or isinstance(result, sds_types.AbstractType)
+
+    @clause(mode="bounded")
+    def ensures_mapping(self, annotation, docstring, result):
+        want = DOC_TYPE_ORACLE(annotation) if isinstance(annotation, str) else None
+        return want is None or (result is not None and result.to_dict() == want)
+
+
+def _annotation_cases(seed, tier):
+    import warnings
+    warnings.simplefilter("ignore")
+    from griffe import Docstring, Function, Module, Parser
+    from safeds_stubgen.docstring_parsing._docstring_parser import DocstringParser
+    texts = ["int", "str", "bool", "float", "list[int]", "list[int, str]", "set[str]", "tuple[int, str]", "tuple[int]",
+             "dict[str, int]", "dict[str]", "Mapping[str, float]", "Mapping[str]", "dict", "list", "tuple", "set",
+             "Optional[int]", "int | None", "int | str | None", "Callable[[int], str]", "Callable[[int]]", "Callable",
+             "int, optional", "{'a', 'b'}", "array-like of shape (n,)", "None", "Any", "typing.Any", "list[list[int]]",
+             "dict[str, list[int]]", "tuple[int, ...]", "int or str", "SomeClass", "pkg.mod.SomeClass", ""]
+    for parser in (Parser.numpy, Parser.google, Parser.sphinx):
+        p = DocstringParser.__new__(DocstringParser)
+        p.parser = parser
+        for t in texts:
+            m = Module("m")
+            f = Function("f", parent=m)
+            m.set_member("f", f)
+            yield {"self": p, "kwargs": {"annotation": t, "docstring": Docstring("text", parent=f)}}
+
+
+griffe_annotation.native_cases = staticmethod(_annotation_cases)
+
+
+# ---------------------------------------------------------------------------------------------- attribute owner (C03)
+def OWNER(stack):
+    """The class an assignment belongs to: the innermost class among the enclosing declarations."""
+    from safeds_stubgen.api_analyzer._api import Class
+    classes = [it for it in stack if isinstance(it, Class)]
+    return classes[-1]
+
+
+@contract(_V + "_is_attribute_already_defined", props=["C03"])
+class attribute_already_defined:
+    """An attribute counts as already recorded exactly when the innermost enclosing class (the class the
+    assignment belongs to, directly or through its __init__) has an attribute of that name."""
+    params = {"value_name": "str"}
+    modifies = []
+    raises = ()
+
+    def requires(self, value_name):
+        from safeds_stubgen.api_analyzer._api import Class, Function
+        stack = self._MyPyAstVisitor__declaration_stack
+        return len(stack) >= 1 and (isinstance(stack[-1], Class) or (
+            isinstance(stack[-1], Function) and len(stack) >= 2 and isinstance(stack[-2], Class)))
+
+    def ensures_owner(self, value_name, result):
+        return result == any(value_name == a.name for a in OWNER(self._MyPyAstVisitor__declaration_stack).attributes)
+
+
+# ---------------------------------------------------------------------------------------------- per-module state reset (C08, C18)
+@contract(_G + "_create_module_string", props=["C08", "C18"], verify=False)
+class create_module_string:
+    """Assumed contract of the module renderer: it must be entered in the clean per-module state (no type
+    parameters, imports, pending markers or re-export target left over from what was rendered before)."""
+    modifies = ["self.*"]
+
+    def requires_clean_state(self, module):
+        return self.class_generics == [] and self.module_imports == set() and self._current_todo_msgs == set() \
+            and self.reexport_module_id == "" and self.module_id == module.id
+
+
+@contract(_G + "__call__", props=["C08", "C18"])
+class generator_call_resets:
+    """Whatever state earlier modules left behind, the module renderer is entered in the clean per-module state
+    (obligation: the precondition of _create_module_string at its call site, for an arbitrary generator state)."""
+    params = {"module": "Module"}
+    modifies = ["self.*"]
+    safety = False
+
+    def requires(self, module):
+        return not self.currently_creating_reexport_data
+
+
+# ---------------------------------------------------------------------------------------------- where a re-exported node is emitted (C10, C11)
+def SEGS(module_id):
+    """Number of path segments of a module id."""
+    return len(module_id.split("/"))
+
+
+@contract(_G + "_has_node_shorter_reexport", props=["C11", "C10"])
+class has_node_shorter_reexport:
+    """A declaration is handed over to a re-exporting package exactly when one of the packages that re-export it
+    has fewer path segments than the module being rendered (the measure the import side uses as well)."""
+    params = {"node": "Class | Function"}
+    modifies = ["self.reexport_modules"]
+    safety = False
+    loop_invariants = {"for1": {
+        "shapes": {"shortest_reexport_module_id": "str", "shortest_reexport_module": "Module | None"},
+        "inv": "(shortest_reexport_module_id != self._get_module_id()) == "
+               "any(SEGS(m.id) < SEGS(self._get_module_id()) for m in node.reexported_by[:_k])"
+               " and (shortest_reexport_module is None) == (shortest_reexport_module_id == self._get_module_id())"
+               " and SEGS(shortest_reexport_module_id) <= SEGS(self._get_module_id())"}}
+
+    def ensures_decision(self, node, result):
+        return result == any(SEGS(m.id) < SEGS(old(self._get_module_id())) for m in node.reexported_by)
